@@ -102,7 +102,7 @@ Section Lines.
   Lemma lines_step d t :
     lex_marked L S0 (mark [PLit pre; PDoc d; PLit [ch_nl]] ++ t) = if ok d then lex_marked L S0 t else None.
   Proof.
-    cbn [mark flat_map piece_mark app]. rewrite app_nil_r, <- !app_assoc.
+    cbn [mark flat_map piece_mark app]. rewrite app_nil_r, <- ?app_assoc.
     rewrite lex_marked_lit, Hpre, lex_marked_app.
     pose proof (Hdoc d) as H. destruct (ok d).
     - destruct H as (S2 & -> & H2). rewrite lex_marked_lit. cbn [lex_str_gen fold_left]. now rewrite H2.
@@ -270,13 +270,13 @@ Proof.
   revert x; induction r as [|y r IH]; intros x.
   - cbn [join flat_map]. now rewrite app_nil_r.
   - change (join (sep ++ pre) (x :: y :: r)) with (x ++ (sep ++ pre) ++ join (sep ++ pre) (y :: r)).
-    rewrite flat_map_cons, <- (IH y). now rewrite <- !app_assoc.
+    rewrite flat_map_cons, <- (IH y). now rewrite <- ?app_assoc.
 Qed.
 
 Lemma join_lines' (sep pre1 pre2 : str) x r rest :
   pre1 ++ pre2 ++ join (sep ++ pre1 ++ pre2) (x :: r) ++ sep ++ rest =
   flat_map (fun d => (pre1 ++ pre2) ++ d ++ sep) (x :: r) ++ rest.
-Proof. rewrite <- join_lines. now rewrite <- !app_assoc. Qed.
+Proof. rewrite <- join_lines. now rewrite <- ?app_assoc. Qed.
 
 (* ---- Kotlin ---- *)
 Lemma kt_pre n : lex_str_gen cfg_kt LCode (tabs_ n ++ lit "/// ") = LLine.
@@ -295,7 +295,7 @@ Theorem C15_fragment_kt indent docs :
   text_of (kt_tmpl indent docs) = kt_write_comments indent docs /\ docs_of (kt_tmpl indent docs) = docs.
 Proof.
   split; [|apply line_tmpl_docs]. unfold kt_tmpl, kt_write_comments. rewrite line_tmpl_text, <- flat_map_concat_map.
-  apply flat_map_ext. intros d. unfold kt_write_comment, tabs, tabs_, nl. now rewrite <- !app_assoc.
+  apply flat_map_ext. intros d. unfold kt_write_comment, tabs, tabs_, nl. now rewrite <- ?app_assoc.
 Qed.
 
 (* ---- Swift ---- *)
@@ -312,7 +312,7 @@ Theorem C15_fragment_sw indent docs :
   text_of (sw_tmpl indent docs) = sw_render_comments indent docs /\ docs_of (sw_tmpl indent docs) = docs.
 Proof.
   split; [|apply line_tmpl_docs]. unfold sw_tmpl, sw_render_comments. rewrite line_tmpl_text.
-  apply flat_map_ext. intros d. unfold sw_tabs, tabs_, sw_nl. now rewrite <- !app_assoc.
+  apply flat_map_ext. intros d. unfold sw_tabs, tabs_, sw_nl. now rewrite <- ?app_assoc.
 Qed.
 
 (* ---- Scala ---- *)
@@ -329,7 +329,7 @@ Theorem C15_fragment_sc indent docs :
   text_of (sc_tmpl indent docs) = sc_write_comments indent docs /\ docs_of (sc_tmpl indent docs) = docs.
 Proof.
   split; [|apply line_tmpl_docs]. unfold sc_tmpl, sc_write_comments. rewrite line_tmpl_text, <- flat_map_concat_map.
-  apply flat_map_ext. intros d. unfold sc_write_comment, sc_tabs, tabs_, sc_nl. now rewrite <- !app_assoc.
+  apply flat_map_ext. intros d. unfold sc_write_comment, sc_tabs, tabs_, sc_nl. now rewrite <- ?app_assoc.
 Qed.
 
 (* ---- Go ---- *)
@@ -346,7 +346,7 @@ Theorem C15_fragment_go indent docs :
   text_of (go_tmpl indent docs) = go_write_comments indent docs /\ docs_of (go_tmpl indent docs) = docs.
 Proof.
   split; [|apply line_tmpl_docs]. unfold go_tmpl, go_write_comments. rewrite line_tmpl_text.
-  apply flat_map_ext. intros d. unfold go_write_comment, go_tabs, tabs_, go_nl. now rewrite <- !app_assoc.
+  apply flat_map_ext. intros d. unfold go_write_comment, go_tabs, tabs_, go_nl. now rewrite <- ?app_assoc.
 Qed.
 
 (* ---- TypeScript ---- *)
@@ -370,12 +370,12 @@ Lemma C15_lex_ts indent docs t :
 Proof.
   destruct docs as [|d [|d2 r]].
   - reflexivity.
-  - cbn [ts_tmpl forallb mark flat_map piece_mark app]. rewrite andb_true_r, <- !app_assoc.
+  - cbn [ts_tmpl forallb mark flat_map piece_mark app]. rewrite andb_true_r, <- ?app_assoc.
     rewrite lex_marked_lit, ts_open, lex_marked_app.
     pose proof (ts_doc_lex false d) as H. cbn [pend_of] in H. rewrite safe_ts_blk, H.
     destruct (blk_ok false d); [|reflexivity].
     rewrite lex_marked_lit. now destruct (blk_end false d).
-  - cbn [ts_tmpl]. rewrite !mark_app. cbn [mark flat_map piece_mark]. rewrite !app_nil_r, <- !app_assoc.
+  - cbn [ts_tmpl]. rewrite !mark_app. cbn [mark flat_map piece_mark]. rewrite ?app_nil_r, <- ?app_assoc.
     rewrite lex_marked_lit, ts_open_nl, ts_lines_lex.
     destruct (forallb safe_ts (d :: d2 :: r)); [|reflexivity].
     now rewrite lex_marked_lit, ts_close.
@@ -390,12 +390,12 @@ Theorem C15_fragment_ts indent docs :
 Proof.
   destruct docs as [|d [|d2 r]]; [split; reflexivity| |].
   - split; [|reflexivity]. cbn [ts_tmpl text_of flat_map piece_text ts_comments app].
-    unfold tabs, tabs_, nl. now rewrite app_nil_r, <- !app_assoc.
+    unfold tabs, tabs_, nl. now rewrite app_nil_r, <- ?app_assoc.
   - split.
     + cbn [ts_tmpl ts_comments]. rewrite !text_of_app, line_tmpl_text.
       match goal with |- context [flat_map ?f (d :: d2 :: r)] => set (F := flat_map f (d :: d2 :: r)) end.
-      cbn [text_of flat_map piece_text]. rewrite !app_nil_r. subst F.
-      unfold tabs, tabs_, nl. rewrite join_lines'. now rewrite <- !app_assoc.
+      cbn [text_of flat_map piece_text]. rewrite ?app_nil_r. subst F.
+      unfold tabs, tabs_, nl. rewrite join_lines'. now rewrite <- ?app_assoc.
     + cbn [ts_tmpl]. rewrite !docs_of_app, line_tmpl_docs. cbn [docs_of flat_map app]. now rewrite app_nil_r.
 Qed.
 
@@ -417,7 +417,7 @@ Lemma C15_lex_py docstring indent docs t :
   if forallb (safe_py docstring) docs then lex_marked cfg_py LCode t else None.
 Proof.
   destruct docs as [|d r]; [reflexivity|]. destruct docstring.
-  - cbn [py_tmpl]. rewrite !mark_app. cbn [mark flat_map piece_mark]. rewrite !app_nil_r, <- !app_assoc.
+  - cbn [py_tmpl]. rewrite !mark_app. cbn [mark flat_map piece_mark]. rewrite ?app_nil_r, <- ?app_assoc.
     rewrite lex_marked_lit, lex_str_app, py_indent_code.
     change (lex_str_gen cfg_py LCode (lit """""""" ++ [ch_nl])) with (LTriple ch_dq 0 false).
     rewrite py_lines_lex. change (safe_py true) with safe_py_docstring.
@@ -437,7 +437,7 @@ Proof.
   revert x; induction r as [|y r IH]; intros x.
   - cbn [map join flat_map]. now rewrite app_nil_r, <- app_assoc.
   - change (join [ch_nl] (map f (x :: y :: r))) with (f x ++ [ch_nl] ++ join [ch_nl] (map f (y :: r))).
-    rewrite flat_map_cons, <- !app_assoc, (IH y). reflexivity.
+    rewrite flat_map_cons, <- ?app_assoc, (IH y). reflexivity.
 Qed.
 
 Theorem C15_fragment_py docstring indent docs :
@@ -448,15 +448,15 @@ Proof.
   - cbn [py_tmpl py_write_comments]. rewrite !text_of_app, line_tmpl_text. unfold py_indent, py_nl.
     set (ind := repeat_str (lit "    ") indent).
     match goal with |- context [flat_map ?f (d :: r)] => set (F := flat_map f (d :: r)) end.
-    cbn [text_of flat_map piece_text]. rewrite !app_nil_r.
+    cbn [text_of flat_map piece_text]. rewrite ?app_nil_r.
     replace F with (flat_map (fun d0 => (ind ++ d0) ++ [ch_nl]) (d :: r))
       by (apply flat_map_ext; intros; now rewrite <- app_assoc).
-    rewrite <- !app_assoc. now rewrite join_map_lines.
+    rewrite <- ?app_assoc. now rewrite join_map_lines.
   - cbn [py_tmpl]. rewrite !docs_of_app, line_tmpl_docs. cbn [docs_of flat_map app]. now rewrite app_nil_r.
   - cbn [py_tmpl py_write_comments]. rewrite line_tmpl_text. unfold py_indent, py_nl.
     set (ind := repeat_str (lit "    ") indent).
     rewrite <- (app_nil_r (join _ _ ++ _)), <- app_assoc, join_map_lines, app_nil_r.
-    apply flat_map_ext; intros; now rewrite <- !app_assoc.
+    apply flat_map_ext; intros; now rewrite <- ?app_assoc.
   - cbn [py_tmpl]. apply line_tmpl_docs.
 Qed.
 
@@ -505,7 +505,7 @@ Proof.
 Qed.
 
 (* ================= Part 5: witnesses through the model's generators ================= *)
-From TS Require Import Model.Outcome Model.Unicode Model.Types Model.Parse.
+From TS Require Import Model.Outcome Model.Unicode Model.Types Model.Parse Model.Lang.Common Model.Lang.Decl.
 
 Definition c15_id (s : string) : id := {| original := lit s; renamed := lit s; via_serde_rename := false |}.
 (* #[typeshare] struct Foo { x: u8 } with one doc string on the struct *)
@@ -618,3 +618,215 @@ Proof.
       apply N.eqb_eq in E1, E2. subst. exfalso. exact (H [] r2 eq_refl).
     + apply IH. intros a b E. apply (H (c :: a) b). cbn [app]. now rewrite E.
 Qed.
+
+(* ================= Part 7: the TypeScript renderer as code parts and comment fragments ================= *)
+(* ts_render_decl of the model, re-read as a sequence of parts: every ts_comments call becomes a CPdoc
+   part carrying exactly the doc list of that position, everything else is code.  The two lemmas say
+   the parts ARE the rendered text and that the doc strings of the parts are the doc strings of the
+   declaration in print order; with C15_file_exact this is whole-declaration containment, up to the
+   code parts keeping the lexer in code mode. *)
+Definition ts_part_text (p : c15_part) : str :=
+  match p with CPcode s => s | CPdoc _ i ds => ts_comments i ds end.
+
+Lemma ts_file_text ps : text_of (c15_file_pieces C15ts ps) = flat_map ts_part_text ps.
+Proof.
+  induction ps as [|p r IH]; [reflexivity|].
+  unfold c15_file_pieces in *. cbn [flat_map]. rewrite text_of_app, IH. f_equal.
+  destruct p as [s|b i ds]; cbn [c15_part_pieces ts_part_text c15_tmpl].
+  - cbn. now rewrite app_nil_r.
+  - apply C15_fragment_ts.
+Qed.
+
+Definition ts_member_code (m : ts_member) : str :=
+  [ch_tab] ++ (if tm_readonly m then lit "readonly " else []) ++
+  typescript_property_aware_rename (tm_key m) ++
+  (if tm_optional m then lit "?" else []) ++ lit ": " ++ ts_show (tm_type m) ++
+  (if tm_null_union m then lit " | null" else []) ++ lit ";" ++ nl.
+Definition ts_parts_member (m : ts_member) : list c15_part :=
+  [CPdoc false 1 (tm_docs m); CPcode (ts_member_code m)].
+
+Definition ts_parts_variant (tag content : str) (v : ts_variant) : list c15_part :=
+  match v with
+  | TVUnit docs wire =>
+    [CPcode nl; CPdoc false 1 docs;
+     CPcode ([ch_tab] ++ lit "| { " ++ tag ++ lit ": " ++ debug_str wire ++ lit ", " ++ content ++ lit "?: undefined }")]
+  | TVTuple docs wire ty opt =>
+    [CPcode nl; CPdoc false 1 docs;
+     CPcode ([ch_tab] ++ lit "| { " ++ tag ++ lit ": " ++ debug_str wire ++ lit ", " ++
+             content ++ (if opt then lit "?" else []) ++ lit ": " ++ ts_show ty ++ lit " }")]
+  | TVStruct docs wire ms =>
+    [CPcode nl; CPdoc false 1 docs;
+     CPcode ([ch_tab] ++ lit "| { " ++ tag ++ lit ": " ++ debug_str wire ++ lit ", " ++ content ++ lit ": {" ++ nl)] ++
+    flat_map ts_parts_member ms ++ [CPcode (lit "}" ++ lit "}")]
+  end.
+
+Definition ts_parts_decl (d : ts_decl) : list c15_part :=
+  match d with
+  | TSInterface docs name gs ms =>
+    [CPdoc false 0 docs; CPcode (lit "export interface " ++ name ++ generics_suffix gs ++ lit " {" ++ nl)] ++
+    flat_map ts_parts_member ms ++ [CPcode (lit "}" ++ nl ++ nl)]
+  | TSAlias docs name gs ty undef =>
+    [CPdoc false 0 docs;
+     CPcode (lit "export type " ++ name ++ generics_suffix gs ++ lit " = " ++ ts_show ty ++
+             (if undef then lit " | undefined" else []) ++ lit ";" ++ nl ++ nl)]
+  | TSConst name ty value =>
+    [CPcode (lit "export const " ++ name ++ lit ": " ++ ts_show ty ++ lit " = " ++ value ++ lit ";" ++ nl)]
+  | TSUnitEnum docs name gs vs =>
+    [CPdoc false 0 docs; CPcode (lit "export enum " ++ name ++ generics_suffix gs ++ lit " {")] ++
+    flat_map (fun v => let '(vdocs, case, wire) := v in
+                       [CPcode nl; CPdoc false 1 vdocs; CPcode ([ch_tab] ++ case ++ lit " = " ++ debug_str wire ++ lit ",")]) vs ++
+    [CPcode (nl ++ lit "}" ++ nl ++ nl)]
+  | TSUnion docs name gs tag content vs =>
+    [CPdoc false 0 docs; CPcode (lit "export type " ++ name ++ generics_suffix gs ++ lit " = ")] ++
+    flat_map (ts_parts_variant tag content) vs ++ [CPcode (lit ";" ++ nl ++ nl)]
+  end.
+
+Definition c15_part_docs (p : c15_part) : list str := match p with CPcode _ => [] | CPdoc _ _ ds => ds end.
+Definition ts_member_docs (m : ts_member) : list str := tm_docs m.
+Definition ts_variant_docs (v : ts_variant) : list str :=
+  match v with
+  | TVUnit docs _ | TVTuple docs _ _ _ => docs
+  | TVStruct docs _ ms => docs ++ flat_map ts_member_docs ms
+  end.
+(* the doc strings of a declaration, in print order *)
+Definition ts_decl_docs (d : ts_decl) : list str :=
+  match d with
+  | TSInterface docs _ _ ms => docs ++ flat_map ts_member_docs ms
+  | TSAlias docs _ _ _ _ => docs
+  | TSConst _ _ _ => []
+  | TSUnitEnum docs _ _ vs => docs ++ flat_map (fun v => fst (fst v)) vs
+  | TSUnion docs _ _ _ _ vs => docs ++ flat_map ts_variant_docs vs
+  end.
+
+Lemma flat_map_flat_map {A B C} (f : A -> list B) (g : B -> list C) l :
+  flat_map g (flat_map f l) = flat_map (fun x => flat_map g (f x)) l.
+Proof. induction l as [|x r IH]; [reflexivity|]. cbn [flat_map]. now rewrite flat_map_app, IH. Qed.
+
+Lemma ts_members_text ms : flat_map ts_part_text (flat_map ts_parts_member ms) = List.concat (map ts_render_member ms).
+Proof.
+  rewrite flat_map_flat_map, <- flat_map_concat_map. apply flat_map_ext. intros m.
+  cbn [ts_parts_member flat_map ts_part_text]. unfold ts_render_member, ts_member_code. now rewrite app_nil_r.
+Qed.
+
+Lemma ts_variant_text tag content v :
+  flat_map ts_part_text (ts_parts_variant tag content v) = ts_render_variant tag content v.
+Proof.
+  destruct v as [docs wire|docs wire ty opt|docs wire ms]; cbn [ts_parts_variant ts_render_variant].
+  - cbn [flat_map ts_part_text]. now rewrite app_nil_r.
+  - cbn [flat_map ts_part_text]. now rewrite app_nil_r.
+  - rewrite !flat_map_app, ts_members_text. cbn [flat_map ts_part_text]. rewrite app_nil_r.
+    now rewrite <- ?app_assoc.
+Qed.
+
+Theorem ts_decl_parts_text d : text_of (c15_file_pieces C15ts (ts_parts_decl d)) = ts_render_decl d.
+Proof.
+  rewrite ts_file_text.
+  destruct d as [docs name gs ms|docs name gs ty undef|name ty value|docs name gs vs|docs name gs tag content vs];
+    cbn [ts_parts_decl ts_render_decl].
+  - rewrite !flat_map_app, ts_members_text. cbn [flat_map ts_part_text]. rewrite app_nil_r. now rewrite <- ?app_assoc.
+  - cbn [flat_map ts_part_text]. now rewrite app_nil_r.
+  - cbn [flat_map ts_part_text]. now rewrite app_nil_r.
+  - rewrite !flat_map_app, flat_map_flat_map. cbn [flat_map ts_part_text]. rewrite app_nil_r, <- ?app_assoc.
+    do 5 f_equal. rewrite <- flat_map_concat_map. f_equal.
+    + apply flat_map_ext. intros [[vdocs case] wire]. cbn [flat_map ts_part_text]. now rewrite app_nil_r, <- ?app_assoc.
+  - rewrite !flat_map_app, flat_map_flat_map. cbn [flat_map ts_part_text]. rewrite app_nil_r, <- ?app_assoc.
+    do 5 f_equal. rewrite <- flat_map_concat_map. f_equal.
+    + apply flat_map_ext. intros v. apply ts_variant_text.
+Qed.
+
+Lemma ts_members_docs ms : flat_map c15_part_docs (flat_map ts_parts_member ms) = flat_map ts_member_docs ms.
+Proof.
+  rewrite flat_map_flat_map. apply flat_map_ext. intros m. cbn. now rewrite app_nil_r.
+Qed.
+
+Theorem ts_decl_parts_docs d : docs_of (c15_file_pieces C15ts (ts_parts_decl d)) = ts_decl_docs d.
+Proof.
+  rewrite c15_file_docs. change (fun p => match p with CPcode _ => [] | CPdoc _ _ ds => ds end) with c15_part_docs.
+  destruct d as [docs name gs ms|docs name gs ty undef|name ty value|docs name gs vs|docs name gs tag content vs];
+    cbn [ts_parts_decl ts_decl_docs].
+  - rewrite !flat_map_app, ts_members_docs. cbn. now rewrite ?app_nil_r.
+  - cbn. now rewrite app_nil_r.
+  - reflexivity.
+  - rewrite !flat_map_app, flat_map_flat_map. cbn [flat_map c15_part_docs app]. rewrite ?app_nil_r. f_equal.
+    apply flat_map_ext. intros [[vdocs case] wire]. cbn. now rewrite app_nil_r.
+  - rewrite !flat_map_app, flat_map_flat_map. cbn [flat_map c15_part_docs app]. rewrite ?app_nil_r. f_equal.
+    apply flat_map_ext. intros v. destruct v as [vd w|vd w ty opt|vd w ms]; cbn [ts_parts_variant ts_variant_docs].
+    + cbn. now rewrite app_nil_r.
+    + cbn. now rewrite app_nil_r.
+    + rewrite !flat_map_app, ts_members_docs. cbn. now rewrite ?app_nil_r.
+Qed.
+
+(* whole declaration: contained iff all its doc strings are safe, given neutral code parts *)
+Theorem C15_ts_decl_partial d : Forall (c15_code_neutral C15ts) (ts_parts_decl d) ->
+  c15_contained C15ts LCode (mark (c15_file_pieces C15ts (ts_parts_decl d))) = forallb safe_ts (ts_decl_docs d).
+Proof.
+  intros H. rewrite (C15_file_exact C15ts _ H), <- ts_decl_parts_docs, c15_file_docs.
+  induction (ts_parts_decl d) as [|p r IH]; [reflexivity|].
+  cbn [forallb flat_map]. rewrite forallb_app. inversion H; subst. rewrite IH by assumption. f_equal.
+  now destruct p.
+Qed.
+
+(* ================= Part 8: TypeScript decisions keep the IR's doc strings ================= *)
+From TS Require Import Proofs.BackCommon.
+
+Lemma Forall2_flat_map {A B C} (f : A -> list C) (g : B -> list C) l r :
+  Forall2 (fun a b => g b = f a) l r -> flat_map g r = flat_map f l.
+Proof. induction 1 as [|a b l r H _ IH]; [reflexivity|]. cbn [flat_map]. now rewrite H, IH. Qed.
+
+Section TSDocs.
+Variable uc : unicode.
+Variable cfg : ts_config.
+
+Lemma ts_member_docs_ir generics f st m st' : ts_member_of cfg generics f st = Ok (m, st') -> ts_member_docs m = fcomments f.
+Proof.
+  unfold ts_member_of. intros H.
+  apply mbind_ok in H as (ty & s1 & _ & H). apply mbind_ok in H as (s2 & s3 & _ & H).
+  apply mbind_ok in H as (u & s4 & _ & H). unfold ret in H. injection H as <- _. reflexivity.
+Qed.
+
+Lemma ts_members_docs_ir generics fs st ms st' :
+  mmapM (ts_member_of cfg generics) fs st = Ok (ms, st') -> flat_map ts_member_docs ms = flat_map fcomments fs.
+Proof.
+  intros H. apply Forall2_flat_map.
+  eapply mmapM_Forall2; [|exact H]. intros f s0 m s0' Hf. exact (ts_member_docs_ir _ _ _ _ _ Hf).
+Qed.
+
+Theorem ts_decl_docs_ir it st d st' : ts_decl_of uc cfg it st = Ok (d, st') -> ts_decl_docs d = c15_item_docs it.
+Proof.
+  destruct it as [s|[sh|tag content sh]|a|c]; cbn [ts_decl_of c15_item_docs]; intros H.
+  - apply mbind_ok in H as (ms & s1 & Hm & H). unfold ret in H. injection H as <- _.
+    cbn [ts_decl_docs]. f_equal. exact (ts_members_docs_ir _ _ _ _ _ Hm).
+  - apply mbind_ok in H as (vs & s1 & Hm & H). unfold ret in H. injection H as <- _.
+    cbn [ts_decl_docs enum_shared]. f_equal. apply Forall2_flat_map.
+    eapply mmapM_Forall2; [|exact Hm]. intros v s0 x s0' Hv.
+    destruct v as [vsh|t vsh|fs vsh]; cbn in Hv; try discriminate.
+    unfold ret in Hv. injection Hv as <- _. reflexivity.
+  - apply mbind_ok in H as (vs & s1 & Hm & H). unfold ret in H. injection H as <- _.
+    cbn [ts_decl_docs enum_shared]. f_equal. apply Forall2_flat_map.
+    eapply mmapM_Forall2; [|exact Hm]. intros v s0 x s0' Hv.
+    destruct v as [vsh|t vsh|fs vsh]; cbn [ts_variant_of] in Hv.
+    + unfold ret in Hv. injection Hv as <- _. reflexivity.
+    + apply mbind_ok in Hv as (ty & s2 & _ & Hv). unfold ret in Hv. injection Hv as <- _. reflexivity.
+    + apply mbind_ok in Hv as (ms & s2 & Hms & Hv). unfold ret in Hv. injection Hv as <- _.
+      cbn [ts_variant_docs c15_variant_docs]. f_equal. exact (ts_members_docs_ir _ _ _ _ _ Hms).
+  - apply mbind_ok in H as (ty & s1 & _ & H). unfold ret in H. injection H as <- _. reflexivity.
+  - apply mbind_ok in H as (ty & s1 & _ & H). unfold ret in H. injection H as <- _. reflexivity.
+Qed.
+
+(* one item through write_struct / write_enum / write_type_alias of the model: the text is code parts
+   and comment fragments whose doc strings are exactly the IR's doc strings of the item, in order;
+   contained iff they are all safe_ts, given that the code parts keep the lexer in code mode *)
+Theorem C15_ts_item_partial it st text st' : ts_write_item uc cfg it st = Ok (text, st') ->
+  exists parts,
+    text = text_of (c15_file_pieces C15ts parts) /\
+    docs_of (c15_file_pieces C15ts parts) = c15_item_docs it /\
+    (Forall (c15_code_neutral C15ts) parts ->
+     c15_contained C15ts LCode (mark (c15_file_pieces C15ts parts)) = forallb safe_ts (c15_item_docs it)).
+Proof.
+  unfold ts_write_item. intros H. apply mbind_ok in H as (d & s1 & Hd & H). unfold ret in H. injection H as <- _.
+  exists (ts_parts_decl d). pose proof (ts_decl_docs_ir _ _ _ _ Hd) as E. repeat split.
+  - symmetry. apply ts_decl_parts_text.
+  - now rewrite ts_decl_parts_docs.
+  - intros Hn. now rewrite C15_ts_decl_partial, E.
+Qed.
+End TSDocs.
